@@ -89,6 +89,8 @@ class HistGen:
             e[0] = ["ref", r]
             evs.append(e)
         new = [rand_ev(self.rng, self.grid, self.base) for _ in range(n)]
+        if new and self.rng.random() < 0.15:
+            new += [list(new[0]) for _ in range(self.rng.randint(1, 3))]  # the same event several times (`n * [event]`)
         evs += new
         self.rng.shuffle(evs)
         self.ops.append(["bulk", b, evs])
